@@ -1000,7 +1000,9 @@ class TunnelCommunity(Community):
         self.logger.debug("Got data (%d) from %s", circuit_id, sock_addr)
 
         circuit = self.circuits.get(circuit_id, None)
-        if circuit and origin and sock_addr == circuit.hop.address:
+        # A circuit that is still being extended has no exit yet: nobody who could legitimately send data over it holds
+        # all of its keys (a relay adds its layer to whatever arrives on the way back, also to an unencrypted cell).
+        if circuit and origin and sock_addr == circuit.hop.address and circuit.state != CIRCUIT_STATE_EXTENDING:
             circuit.beat_heart()
 
             e2e_data = circuit.ctype in [CIRCUIT_TYPE_RP_DOWNLOADER, CIRCUIT_TYPE_RP_SEEDER]
